@@ -28,7 +28,7 @@ for d in sorted(os.listdir(base)):
             break
     rows.append(res)
     print(res, flush=True)
-with open(os.path.join(base, "RECHECK.md"), "w") as f:
+with open(os.path.join(base, os.environ.get("RECHECK_OUT", "RECHECK.md")), "w") as f:
     f.write("# Re-check of all seeded changes against the final quick tier\n\n(produced by tools/recheck_seeded.py; seed 0, then seed 1 if missed)\n\n| change | check | result | seed | detail |\n|---|---|---|---|---|\n")
     for d, prop, st, detail, seed in rows:
         f.write("| %s | %s | %s | %s | %s |\n" % (d, prop, st, seed, detail))
